@@ -81,6 +81,7 @@ package rle
 //@   modifies r, r.out, HA(r.out.d)
 //@   ensures rleKeeps(r)
 //@   ensures[C07] rleShape(r) && openRun(r) && r.bufCount == 0 && r.repeatCount == 0 && r.headerPointer != -1
+//@   ensures[C07] old(r.out.i) <= r.out.i && r.out.i <= old(r.out.i) + 5
 
 //@ func (*RLE).endPreviousBitPackedRun
 //@   requires rleShape(r) && openRun(r)
@@ -97,6 +98,7 @@ package rle
 //@   modifies r, r.out, HA(r.out.d)
 //@   ensures rleKeeps(r)
 //@   ensures[C07] rleShape(r) && r.headerPointer == -1 && r.groupCount == 0 && r.repeatCount == 0 && r.bufCount == 0
+//@   ensures[C07] old(r.out.i) <= r.out.i && r.out.i <= old(r.out.i) + 6
 
 //@ func (*RLE).writeIntLittleEndianPaddedOnBitWidth
 //@   modifies nothing
